@@ -128,12 +128,14 @@ Fixpoint p2o_loop_m (m : mode) (d : text) (i line col offset pl pc : Z) : res (o
 Definition p2o_m (m : mode) (d : text) (p : pos) : res (option Z) :=
   p2o_loop_m m d 0 0 0 0 (fst p) (snd p).
 
+(* usize::saturating_add *)
+Definition usat_add (a b : Z) : Z := Z.min (a + b) (USIZE_MOD - 1).
+
 (* span_to_range: offset_to_position(source, start), then offset_to_position(source,
-   end.max(start + 1)) — [start + 1] is a plain usize addition *)
+   end.max(start.saturating_add(1))) *)
 Definition span_to_range_m (m : mode) (d : text) (a b : Z) : res (pos * pos) :=
   s <- o2p_m m d a ;;
-  a1 <- uadd m a 1 ;;
-  e <- o2p_m m d (Z.max b a1) ;;
+  e <- o2p_m m d (Z.max b (usat_add a 1)) ;;
   Val (s, e).
 
 Fixpoint gli_loop_m (m : mode) (d : text) (i offset line_num line_start : Z) : res (Z * Z) :=
@@ -233,7 +235,8 @@ Definition inside (d : text) (p : pos) : Prop := exists o, boundary d o /\ o2p d
 Definition astral (c : ch) : bool := 65536 <=? c.
 (* the line prefix before offset [o] contains a scalar outside the BMP: scalar count <> UTF-16 count *)
 Definition Known_C19_astral_before (d : text) (o : Z) : bool := existsb astral (last_line (cover d o)).
-(* [start + 1] overflows usize *)
+(* REPAIRED class (kept for the regression theorem): [start + 1] overflowed usize when the code
+   used a plain addition; span_to_range now uses saturating_add *)
 Definition Known_C19_span_start_max (a : Z) : bool := a =? USIZE_MOD - 1.
 
 (* ------------------------------------------------------------------ rendering for the correspondence run *)
